@@ -9,6 +9,10 @@
 //         <n> { <group> + 14 geom tokens }*n     (model counterpart: bodyCompile / applyTotalmass)
 //        one static body with default frame, an (optionally explicit) inertial clause and n geoms, compiled with
 //        compiler.boundmass / boundinertia / balanceinertia / inertiafromgeom / inertiagrouprange / settotalmass
+//   redit <api 0|1> <k> <n> { 27 fixed ibody tokens + n x (<group> + 14 geom tokens) }*k   (model: bodyCompileState)
+//        ONE spec: stage 1 builds body + n geoms and compiles; each later stage overwrites every mass-relevant field
+//        of the same mjsBody / mjsGeom / compiler in place and compiles the same spec again (api 0: mj_compile,
+//        api 1: mj_recompile on the previous model when there is one); output: the k results joined by ` | `
 // Doubles are the 16 hex digits of their IEEE bits (`nan` for NaN) unless stated otherwise.
 #include <math.h>
 #include <stdint.h>
@@ -169,6 +173,109 @@ static void op_ibody(char** tok, int n) {
   mj_deleteSpec(sp);
 }
 
+// ---- edit-then-recompile sequences on one spec
+typedef struct {
+  double bm, bi, stm, mass, ipos[3], iquat[4], diag[3], full[6];
+  int bal, ifg, glo, ghi, expl, hasipos, hasfull;
+} StageFixed;
+
+static int parse_fixed(char** tok, StageFixed* f) {
+  int ok = getf(tok[0], &f->bm) && getf(tok[1], &f->bi) && b01(tok[2], &f->bal) && geti(tok[3], &f->ifg) && f->ifg >= 0 &&
+           f->ifg <= 2 && strlen(tok[3]) == 1 && geti(tok[4], &f->glo) && geti(tok[5], &f->ghi) && getf(tok[6], &f->stm) &&
+           b01(tok[7], &f->expl) && getf(tok[8], &f->mass) && b01(tok[9], &f->hasipos) && b01(tok[20], &f->hasfull);
+  for (int i = 0; ok && i < 3; i++) ok = getf(tok[10 + i], f->ipos + i) && getf(tok[17 + i], f->diag + i);
+  for (int i = 0; ok && i < 4; i++) ok = getf(tok[13 + i], f->iquat + i);
+  for (int i = 0; ok && i < 6; i++) ok = getf(tok[21 + i], f->full + i);
+  return ok;
+}
+
+// returns 0 malformed, 1 fine, 2 ellipsoid shell
+static int check_geom15(char** t) {
+  int grp, ty, sh, um; double x;
+  if (!geti(t[0], &grp) || !gtype(t[1], &ty) || !b01(t[2], &sh) || !b01(t[3], &um)) return 0;
+  for (int j = 4; j < 15; j++) if (!getf(t[j], &x)) return 0;
+  return (ty == mjGEOM_ELLIPSOID && sh) ? 2 : 1;
+}
+
+// overwrite every mass-relevant field (the values a fresh spec would have, defaults included)
+static void set_fixed(mjSpec* sp, mjsBody* b, const StageFixed* f) {
+  sp->compiler.boundmass = f->bm;
+  sp->compiler.boundinertia = f->bi;
+  sp->compiler.balanceinertia = f->bal;
+  sp->compiler.inertiafromgeom = f->ifg == 0 ? mjINERTIAFROMGEOM_FALSE : f->ifg == 1 ? mjINERTIAFROMGEOM_TRUE : mjINERTIAFROMGEOM_AUTO;
+  sp->compiler.inertiagrouprange[0] = f->glo;
+  sp->compiler.inertiagrouprange[1] = f->ghi;
+  sp->compiler.settotalmass = f->stm;
+  b->explicitinertial = f->expl;
+  b->mass = f->mass;
+  if (f->hasipos) { b->ipos[0] = f->ipos[0]; b->ipos[1] = f->ipos[1]; b->ipos[2] = f->ipos[2]; }
+  else { b->ipos[0] = NAN; b->ipos[1] = 0; b->ipos[2] = 0; }
+  for (int i = 0; i < 4; i++) b->iquat[i] = f->iquat[i];
+  for (int i = 0; i < 3; i++) b->inertia[i] = f->diag[i];
+  if (f->hasfull) for (int i = 0; i < 6; i++) b->fullinertia[i] = f->full[i];
+  else { b->fullinertia[0] = NAN; for (int i = 1; i < 6; i++) b->fullinertia[i] = 0; }
+}
+
+static void set_geom15(mjsGeom* g, char** t) {
+  int grp, ty, sh, um; double v[11];
+  geti(t[0], &grp); gtype(t[1], &ty); b01(t[2], &sh); b01(t[3], &um);
+  for (int j = 0; j < 11; j++) getf(t[4 + j], v + j);
+  g->type = (mjtGeom)ty;
+  g->typeinertia = sh ? mjINERTIA_SHELL : mjINERTIA_VOLUME;
+  g->size[0] = v[1]; g->size[1] = v[2]; g->size[2] = v[3];
+  g->contype = 0; g->conaffinity = 0;
+  g->group = grp;
+  if (um) { g->mass = v[0]; g->density = 1000; } else { g->mass = NAN; g->density = v[0]; }
+  g->pos[0] = v[4]; g->pos[1] = v[5]; g->pos[2] = v[6];
+  g->quat[0] = v[7]; g->quat[1] = v[8]; g->quat[2] = v[9]; g->quat[3] = v[10];
+}
+
+static void op_redit(char** tok, int n) {
+  int api, k, ng;
+  if (n < 3 || !b01(tok[0], &api) || !geti(tok[1], &k) || !geti(tok[2], &ng) || tok[1][0] == '-' || tok[2][0] == '-' ||
+      k < 1 || k > 16 || ng < 0 || ng > 64 || n != 3 + k * (27 + 15 * ng)) { printf("bad-op\n"); return; }
+  int w = 27 + 15 * ng, unsupported = 0;
+  StageFixed f;
+  for (int s = 0; s < k; s++) {
+    char** t = tok + 3 + s * w;
+    if (!parse_fixed(t, &f)) { printf("bad-op\n"); return; }
+    for (int g = 0; g < ng; g++) {
+      int r = check_geom15(t + 27 + 15 * g);
+      if (!r) { printf("bad-op\n"); return; }
+      if (r == 2) unsupported = 1;
+    }
+  }
+  if (unsupported) { printf("unsupported\n"); return; }
+  mjSpec* sp = mj_makeSpec();
+  mjsBody* b = newbody(sp);
+  mjsGeom* gs[64];
+  for (int g = 0; g < ng; g++) gs[g] = mjs_addGeom(b, NULL);
+  mjModel* m = NULL;
+  for (int s = 0; s < k; s++) {
+    char** t = tok + 3 + s * w;
+    parse_fixed(t, &f);
+    set_fixed(sp, b, &f);
+    for (int g = 0; g < ng; g++) set_geom15(gs[g], t + 27 + 15 * g);
+    if (api && m) {
+      if (mj_recompile(sp, NULL, m, NULL) != 0) m = NULL;   // the old model is freed by a failed recompile
+    } else {
+      if (m) mj_deleteModel(m);
+      m = mj_compile(sp, NULL);
+    }
+    if (s) printf(" | ");
+    if (!m) printf("error");
+    else {
+      putf(m->body_mass[1], 1);
+      for (int i = 0; i < 3; i++) putf(m->body_ipos[3 + i], 0);
+      for (int i = 0; i < 4; i++) putf(m->body_iquat[4 + i], 0);
+      for (int i = 0; i < 3; i++) putf(m->body_inertia[3 + i], 0);
+    }
+  }
+  printf("\n");
+  if (m) mj_deleteModel(m);
+  mj_deleteSpec(sp);
+}
+
 static void op_mesh(char** tok, int n) {
   if (n < 13) { printf("bad-op\n"); return; }
   double density = strtod(tok[0], NULL);
@@ -223,6 +330,7 @@ int main(void) {
     else if (!strcmp(tok[0], "inert")) op_inert(tok + 1, n - 1);
     else if (!strcmp(tok[0], "body")) op_body(tok + 1, n - 1);
     else if (!strcmp(tok[0], "ibody")) op_ibody(tok + 1, n - 1);
+    else if (!strcmp(tok[0], "redit")) op_redit(tok + 1, n - 1);
     else if (!strcmp(tok[0], "mesh")) op_mesh(tok + 1, n - 1);
     else printf("bad-op\n");
     fflush(stdout);
